@@ -70,11 +70,21 @@ type posted struct {
 }
 
 func runHist(h []int, _ json.RawMessage) (out xplore.Out) {
-	if len(h) > 0 && h[0] == nestMarker {
+	if len(h) > 0 && (h[0] == nestMarker || h[0] == nestBFSMarker) {
 		saved, savedR := W, restartE
 		W, restartE = nestWorld(), -1
 		defer func() { W, restartE = saved, savedR }()
-		return runHist(h[1:], nil)
+		o := runHist(h[1:], nil)
+		if h[0] == nestBFSMarker {
+			var en []int
+			for _, e := range o.Enabled {
+				if e < 16 {
+					en = append(en, e)
+				}
+			}
+			o.Enabled = en
+		}
+		return o
 	}
 	in, err := W.NewInst()
 	if err != nil {
@@ -211,7 +221,7 @@ func main() {
 	}
 	W = world(thorough)
 	spec := &xplore.Spec{Name: "c18", Run: runHist, Recycle: 300, Describe: func(h []int) interface{} {
-		if len(h) > 0 && h[0] == nestMarker {
+		if len(h) > 0 && (h[0] == nestMarker || h[0] == nestBFSMarker) {
 			return append([]string{"world:own-vote-nesting"}, nestWorld().Describe(h[1:])...)
 		}
 		return W.Describe(h)
